@@ -162,16 +162,14 @@ func (m Mounts) GetMount(path string) *MountType {
 
 func (m Mounts) GetMountAndSubmounts(path string) []*MountType {
 	list := make(mountList, 0, 20)
-	if mnt := m.mounts[path]; mnt != nil {
-		list = append(list, mnt)
-	}
-	path += "/"
-	for mtpoint, mnt := range m.mounts {
-		if strings.HasPrefix(mtpoint, path) {
+	prefix := path + "/"
+	for i := range m.mount_list {
+		mnt := &m.mount_list[i]
+		if mnt.Mountpoint == path || strings.HasPrefix(mnt.Mountpoint, prefix) {
 			list = append(list, mnt)
 		}
 	}
-	sort.Sort(list)
+	sort.Stable(list)
 	return list
 }
 
